@@ -27,10 +27,59 @@ import (
 func TestMain(m *testing.M) {
 	flag.Parse()
 	log.SetOutput(io.Discard)
+	if os.Getenv("VERIF_STALLWATCH") != "" {
+		go stallWatchdog(os.Getenv("VERIF_PROP"))
+	}
 	code := m.Run()
 	evid.Flush()
 	stack.Cleanup()
 	os.Exit(code)
+}
+
+// stallWatchdog is the hang oracle of last resort for a test process: when no
+// evidence event (case, class, sample) has been recorded for four minutes and
+// the whole process then uses less than half a second of CPU in a further
+// twenty seconds, nothing is slow -- everything is blocked.  A call into the
+// code under test that never returns is what every property forbids in its own
+// words (a reply, an outcome, a reading), so that is reported as a violation
+// with the goroutine dump as the history; a process that is merely busy or slow
+// is left to the go test deadline, which the driver counts as inconclusive.
+func stallWatchdog(prop string) {
+	last, since := int64(-1), time.Now()
+	for {
+		time.Sleep(5 * time.Second)
+		p := evid.Progress()
+		if p != last {
+			last, since = p, time.Now()
+			continue
+		}
+		if time.Since(since) < 240*time.Second {
+			continue
+		}
+		c0 := processCPU()
+		time.Sleep(20 * time.Second)
+		if evid.Progress() != last || processCPU()-c0 > 500*time.Millisecond {
+			continue
+		}
+		dump := make([]byte, 1<<20)
+		dump = dump[:runtime.Stack(dump, true)]
+		var blocked []string
+		for _, g := range strings.Split(string(dump), "\n\n") {
+			if strings.Contains(g, "github.com/netflix/rend/") && !strings.Contains(g, "[IO wait") {
+				blocked = append(blocked, g)
+			}
+		}
+		if len(blocked) > 12 {
+			blocked = blocked[:12]
+		}
+		if prop == "" {
+			prop = "unknown"
+		}
+		path := evid.For(prop).Violation("stalled", map[string]interface{}{"problem": "no case finished for more than four minutes while the process was idle: a call into the code under test never returned", "goroutines_in_rend_code_not_waiting_for_io": blocked})
+		fmt.Printf("--- FAIL: stall watchdog (%s): no case finished for %v and the process is idle (%d goroutines inside rend code are blocked on something other than I/O); replay %s\n%s\n", prop, time.Since(since).Round(time.Second), len(blocked), path, strings.Join(blocked, "\n\n"))
+		evid.Flush()
+		os.Exit(1)
+	}
 }
 
 func thorough() bool { return evid.Tier() == "thorough" }
